@@ -164,6 +164,8 @@ Definition enum_item (v : bytes) : option key :=
   match json_type b with
   | None => None
   | Some JString => Some (Unquote.unquote b, JString)
+  | Some JInteger => Some (match NumModel.scan b with Some n => NumModel.num_string n | None => b end, JInteger)   (* fix 7bb5f56: numbers of one kind *)
+  | Some JFloat => Some (match NumModel.scan b with Some n => NumModel.num_string n | None => b end, JFloat)       (* are keyed by their value *)
   | Some t => Some (b, t)
   end.
 
@@ -275,11 +277,16 @@ Definition after_array_item (idx : N) (s : sc) (c : byte) : sres :=
   else err_char idx.
 
 (* stateEndTop; [lc] = lengthComputing *)
-Definition end_top (lc : bool) (idx : N) (s : sc) (c : byte) : sres :=
+Definition end_top (lc : bool) (idx : N) (s : sc) (c : byte) (nxt : option byte) : sres :=
   let rest (s : sc) : sres :=
     if s_trail s then SEos (* found(EndTop) is queued but never delivered *) else SOk s in
   if is_newline c then new_line idx s
-  else if ch c 47 then switch_to_annotation idx s
+  else if ch c 47 then
+    (* fix a0479cf: in length mode a slash that does not begin // or /* is the first byte after the rule: found(EndTop); return errEOS *)
+    match nxt with
+    | Some x => if (lc && negb (ch x 47) && negb (ch x 42))%bool then SEos else switch_to_annotation idx s
+    | None => switch_to_annotation idx s
+    end
   else if negb (is_blank c) then
     if lc then
       match s_stack s with
@@ -308,7 +315,7 @@ Definition validate_value (data : bytes) (idx : N) (s : sc) : sres + sc :=
   end.
 
 (* stateEndValue *)
-Definition end_value (lc : bool) (data : bytes) (idx : N) (s : sc) (c : byte) : sres :=
+Definition end_value (lc : bool) (data : bytes) (idx : N) (s : sc) (c : byte) (nxt : option byte) : sres :=
   (* the part after "t = ..." : [t] is the type that decides *)
   let after (t : ev) (s : sc) : sres :=
     match t with
@@ -328,13 +335,13 @@ Definition end_value (lc : bool) (data : bytes) (idx : N) (s : sc) (c : byte) : 
     | _ => err_char idx
     end in
   match s_stack s with
-  | [] => end_top lc idx (set_step SEndTop s) c
+  | [] => end_top lc idx (set_step SEndTop s) c nxt
   | (LiteralBegin, _) :: rest =>
     match validate_value data idx (found LiteralEnd s) with
     | inl r => r
     | inr s2 =>
       match rest with
-      | [] => end_top lc idx (set_step SEndTop s2) c
+      | [] => end_top lc idx (set_step SEndTop s2) c nxt
       | (t2, _) :: _ => after t2 s2
       end
     end
@@ -342,10 +349,10 @@ Definition end_value (lc : bool) (data : bytes) (idx : N) (s : sc) (c : byte) : 
   end.
 
 (* state0 *)
-Definition state0 (lc : bool) (data : bytes) (idx : N) (s : sc) (c : byte) : sres :=
+Definition state0 (lc : bool) (data : bytes) (idx : N) (s : sc) (c : byte) (nxt : option byte) : sres :=
   if ch c 46 then SOk (set_step Dot (set_unf true s))
   else if (ch c 101 || ch c 69)%bool then err_char idx
-  else end_value lc data idx s c.
+  else end_value lc data idx s c nxt.
 
 Definition expect (idx : N) (s : sc) (c : byte) (n : N) (nxt : st) : sres :=
   if ch c n then SOk (set_step nxt s) else err_char idx.
@@ -382,9 +389,9 @@ Definition step1 (lc : bool) (data : bytes) (idx : N) (s : sc) (c : byte) (nxt :
     else SOk (set_step FoundArrayItemBeginOrEmpty (found ArrayBegin s))
   | FoundArrayItemBeginOrEmpty => found_array_item_begin_or_empty idx s c
   | FoundArrayItemBegin => found_item_literal (begin_value idx s c)
-  | EndValue => end_value lc data idx s c
+  | EndValue => end_value lc data idx s c nxt
   | AfterArrayItem => after_array_item idx s c
-  | SEndTop => end_top lc idx s c
+  | SEndTop => end_top lc idx s c nxt
   | InString =>
     if ch c 34 then SOk (set_unf false (set_step EndValue s))
     else if ch c 92 then SOk (set_step InStringEsc s)
@@ -403,13 +410,13 @@ Definition step1 (lc : bool) (data : bytes) (idx : N) (s : sc) (c : byte) (nxt :
     if ch c 48 then SOk (set_unf false (set_step S0 s))
     else if is_digit19 c then SOk (set_unf false (set_step S1 s))
     else err_char idx
-  | S1 => if is_digit c then SOk (set_step S1 s) else state0 lc data idx s c
-  | S0 => state0 lc data idx s c
+  | S1 => if is_digit c then SOk (set_step S1 s) else state0 lc data idx s c nxt
+  | S0 => state0 lc data idx s c nxt
   | Dot => if is_digit c then SOk (set_step Dot0 (set_unf false s)) else err_char idx
   | Dot0 =>
     if is_digit c then SOk s
     else if (ch c 101 || ch c 69)%bool then err_char idx
-    else end_value lc data idx s c
+    else end_value lc data idx s c nxt
   | ST => expect idx s c 114 STr
   | STr => expect idx s c 117 STru
   | STru => expect_last idx s c 101
